@@ -102,9 +102,13 @@ func GenQuery(t *rapid.T, qc *QCfg, s *Schema, table string, label string) *Quer
 	res := sem.Def.ResNS
 	q := &Query{From: table}
 	names := []string{"_points"}
+	opNames := []string{"_points"} // usable as operands of arithmetic (a top-level BOUNDED is not)
 	var pctFields []string
 	for _, f := range sem.Fields {
 		names = append(names, f.Name)
+		if f.Ex.Op != "BOUNDEDTOP" && f.Ex.Op != "PCT" {
+			opNames = append(opNames, f.Name)
+		}
 		if f.Ex.Op == "PCT" {
 			pctFields = append(pctFields, f.Name)
 		}
@@ -143,7 +147,7 @@ func GenQuery(t *rapid.T, qc *QCfg, s *Schema, table string, label string) *Quer
 			case len(pctFields) > 0 && rapid.IntRange(0, 2).Draw(t, fmt.Sprintf("%s.pk%d", label, i)) == 0:
 				ex = &Ex{Op: "PCTREF", F: rapid.SampledFrom(pctFields).Draw(t, fmt.Sprintf("%s.pf%d", label, i)), Pct: float64(rapid.SampledFrom([]int{5, 50, 95}).Draw(t, fmt.Sprintf("%s.pp%d", label, i)))}
 			default:
-				ex = genDerived(t, qc, names, 2, fmt.Sprintf("%s.d%d", label, i))
+				ex = genDerived(t, qc, opNames, 2, fmt.Sprintf("%s.d%d", label, i))
 			}
 			q.Fields = append(q.Fields, QField{Name: fmt.Sprintf("q%d", i), Ex: ex})
 		}
@@ -162,11 +166,10 @@ func GenQuery(t *rapid.T, qc *QCfg, s *Schema, table string, label string) *Quer
 			// relative to now (now ~ newest point): a negative duration
 			return &TimeSpec{IsRel: true, Rel: -(off/1e6 + 1) * 1e6}
 		}
-		switch rapid.IntRange(0, 2).Draw(t, label+".wk") {
+		// the grammar has ASOF x [UNTIL y]; UNTIL alone does not parse
+		switch rapid.IntRange(0, 1).Draw(t, label+".wk") {
 		case 0:
 			q.AsOf = bound(label + ".asof")
-		case 1:
-			q.Until = bound(label + ".until")
 		default:
 			q.AsOf = bound(label + ".asof")
 			q.Until = bound(label + ".until")
@@ -209,7 +212,7 @@ func GenQuery(t *rapid.T, qc *QCfg, s *Schema, table string, label string) *Quer
 		}
 	}
 	if qc.Having && rapid.IntRange(0, 3).Draw(t, label+".hav") == 0 {
-		q.Having = GenHaving(t, qc, names, 1, label+".h")
+		q.Having = GenHaving(t, qc, opNames, 1, label+".h")
 	}
 	if qc.Order && rapid.IntRange(0, 2).Draw(t, label+".ord") == 0 {
 		cands := append([]string{"_time"}, dims...)
